@@ -49,12 +49,27 @@ const ATOM_CACHE_SIZE: usize = 256;
 #[derive(Debug, Clone)]
 pub struct AtomCache {
     atoms: HashMap<u8, Atom>,
+    /// Entries learnt from distribution headers, keyed by cache slot
+    /// (SegmentIndex * 256 + InternalSegmentIndex); they persist across messages.
+    header_entries: HashMap<u16, Atom>,
+    /// Atoms of the distribution header currently being decoded, by position in that header:
+    /// this is what an ATOM_CACHE_REF in the terms that follow refers to.
+    header_refs: Option<Vec<Atom>>,
 }
 
 impl AtomCache {
     pub fn new() -> Self {
         Self {
             atoms: HashMap::with_capacity(ATOM_CACHE_SIZE),
+            header_entries: HashMap::new(),
+            header_refs: None,
+        }
+    }
+
+    fn resolve_ref(&self, index: u8) -> Option<&Atom> {
+        match &self.header_refs {
+            Some(refs) => refs.get(index as usize),
+            None => self.atoms.get(&index),
         }
     }
 
@@ -236,6 +251,9 @@ fn parse_versioned_term_with_cache<'a>(
         return Err(nom::Err::Failure(NomError::new(input, ErrorKind::Tag)));
     }
 
+    // references of an earlier message's header must not leak into this one
+    cache.header_refs = None;
+
     let (input, tag) = be_u8(input)?;
     if tag == DIST_HEADER {
         parse_dist_header_with_cache(input, cache)
@@ -291,7 +309,7 @@ fn parse_term_from_tag<'a>(
         LOCAL_EXT => parse_local_ext(input, cache),
         ATOM_CACHE_REF => {
             let (input, cache_index) = be_u8(input)?;
-            if let Some(atom) = cache.get(cache_index) {
+            if let Some(atom) = cache.resolve_ref(cache_index) {
                 log::debug!(
                     "Found ATOM_CACHE_REF index {} -> '{}'",
                     cache_index,
@@ -527,6 +545,8 @@ fn parse_dist_header_with_cache<'a>(
 ) -> NomResult<'a, OwnedTerm> {
     let (input, num_atom_cache_refs) = be_u8(input)?;
 
+    cache.header_refs = Some(Vec::with_capacity(num_atom_cache_refs as usize));
+
     if num_atom_cache_refs == 0 {
         return parse_term(input, cache);
     }
@@ -554,6 +574,8 @@ fn parse_dist_header_with_cache<'a>(
         };
 
         let is_new_entry = (flag_nibble & 0x08) != 0;
+        let segment_index = (flag_nibble & 0x07) as u16;
+        let slot = segment_index * 256 + internal_segment_index as u16;
 
         if is_new_entry {
             let (new_input, atom_len) = if long_atoms {
@@ -574,8 +596,23 @@ fn parse_dist_header_with_cache<'a>(
                 atom_str,
                 internal_segment_index
             );
-            cache.insert(internal_segment_index, Atom::new(atom_str));
+            let atom = Atom::new(atom_str);
+            cache.insert(internal_segment_index, atom.clone());
+            cache.header_entries.insert(slot, atom.clone());
+            if let Some(refs) = cache.header_refs.as_mut() {
+                refs.push(atom);
+            }
             input = new_input;
+        } else {
+            // a reference to an entry created by an earlier header
+            let atom = cache
+                .header_entries
+                .get(&slot)
+                .cloned()
+                .ok_or_else(|| nom::Err::Failure(NomError::new(input, ErrorKind::Tag)))?;
+            if let Some(refs) = cache.header_refs.as_mut() {
+                refs.push(atom);
+            }
         }
     }
 
